@@ -123,16 +123,22 @@ def custom_table_palette(variant=1):
         from ak.color import ConfColor
 
         class VfEnumPalette(PPEnumFieldType.EnumPalette):
-            if variant == 2:
+            if variant == 5:
+                # (only the ids of its own: what the class it derives from describes comes through that class)
+                SYNTAX_DEFAULTS = {"VFCUSTOM5.GOOD": "CYAN", "VFCUSTOM5.BAD": "MAGENTA:bold"}
+                name_good = ConfColor('VFCUSTOM5.GOOD')
+                name_warn = ConfColor('VFCUSTOM5.BAD')
+            elif variant == 2:
                 # (a class that declares defaults of its own repeats those of the class it derives from)
                 SYNTAX_DEFAULTS = dict(PPEnumFieldType.EnumPalette.SYNTAX_DEFAULTS or {},
                                        **{"VFCUSTOM.VALUE": "NUMBER:bold,underline", "VFCUSTOM.GOOD": "OK:crossed"})
                 value = ConfColor('VFCUSTOM.VALUE')
                 name_good = ConfColor('VFCUSTOM.GOOD')
-            else:
+            elif variant != 5:
                 value = ConfColor('NUMBER')
                 name_good = ConfColor('OK')
-            name_warn = ConfColor('WARN')
+            if variant != 5:
+                name_warn = ConfColor('WARN')
 
         class VfTablePalette(PPTable.TablePalette):
             SUB_PALETTES_MAP = {PPEnumFieldType.EnumPalette: VfEnumPalette}
@@ -165,6 +171,21 @@ def custom_table_palette(variant=1):
             return _CUSTOM[variant]
         _CUSTOM[variant] = VfTablePalette
     return _CUSTOM[variant]
+
+
+def custom_pp_palette():
+    """a palette of the application for printed values: no descriptions of its own - it names the palettes whose ids it
+    uses as its parents (the printer's own palette, and the record palette from which it borrows the look of numbers)"""
+    if 'pp' not in _CUSTOM:
+        from ak.color import ConfColor
+        from ak.ppobj import FieldType
+
+        class VfPPPalette(PrettyPrinter.PPPalette):
+            SYNTAX_DEFAULTS = None
+            PARENT_PALETTES = [PrettyPrinter.PPPalette, FieldType.PALETTE_CLASS]
+            number = ConfColor('RECORD.NUMBER')
+        _CUSTOM['pp'] = VfPPPalette
+    return _CUSTOM['pp']
 
 
 PALETTE_CLASSES = {'table': lambda: PPTable.TablePalette, 'pp': lambda: PrettyPrinter.PPPalette,
@@ -222,6 +243,8 @@ def render(obj, ospec, req, conf_dict, live_conf=None, observe=None):
     elif via in ('custom_palette', 'custom_palette2', 'custom_palette3', 'custom_palette4') and kind == 'table':
         kw = dict(palette=custom_table_palette(int(via[-1]) if via[-1].isdigit() else 1), colors_conf=conf,
                   no_color=no_color)
+    elif via in ('custom_palette', 'custom_palette3') and kind == 'pp':
+        kw = dict(palette=custom_pp_palette(), colors_conf=conf, no_color=no_color)
     elif via == 'palette_synced' and kind in ('pp', 'ghist'):
         # a palette OBJECT that follows the global configuration (synced=True) is given, with or without no_color
         akcolor.set_global_colors_config(conf)
